@@ -27,4 +27,7 @@ def boot():
     here = os.path.realpath(torchjd.__file__)
     if not here.startswith(os.path.realpath(REPO_SRC) + os.sep):
         raise NotFromRepo(f"torchjd imported from {here}, not from {REPO_SRC}")
+    if os.environ.get("TORCHJD_VERIF", "1") == "1":
+        from . import contracts
+        contracts.install()
     _booted = True
